@@ -133,8 +133,11 @@ fn create_next_state<C: ContentAddrStore>(
             }
         }
         // fees
+        // base_fee adds the covenant weights up with plain `+`, and a single covenant can already weigh
+        // u128::MAX (weights saturate): cap each one so that the sum cannot wrap around into a small fee
+        let weight_cap = u128::MAX / (tx.covenants.len() as u128 + 1);
         let min_fee = tx.base_fee(next_state.fee_multiplier, 0, |c| {
-            covenant_weight_from_bytes(c)
+            covenant_weight_from_bytes(c).min(weight_cap)
         });
         if tx.fee < min_fee {
             return Err(StateError::InsufficientFees(min_fee));
